@@ -1551,6 +1551,18 @@ var shapeTargets = []shapeTarget{
 	{"cmd/thruserv", "handleWebSocket", "", "args:hub.Broadcast", "handler_bcast_args"},
 	{"cmd/thruserv", "handleWebSocket", "", "args:store.GetByJoinCode", "handler_lookup_args"},
 	{"internal/ice", "ProbeAndDial", "Prober", "if-cond-has:claimed", "probe_claim"},
+	// whole decision structure (every `if` condition in source order, enclosing conditions first) of small functions that
+	// hand-written models transcribe line by line
+	{"internal/transfer", "nextChunkToSend", "sendFileState", "if-all", "sendfile_next_chunk"},
+	{"internal/transfer", "markChunkDone", "sendFileState", "if-all", "sendfile_mark_done"},
+	{"internal/transfer", "trySendEnd", "sendFileState", "if-all", "sendfile_try_end"},
+	{"internal/app", "maybeStartTransfers", "SnapshotSender", "if-all", "admission_start"},
+	{"internal/app", "runTransfer", "SnapshotSender", "assign:current", "admission_slot_identity"},
+	{"internal/app", "handlePeerLeft", "SnapshotSender", "if-all", "admission_left"},
+	{"internal/peers", "Add", "Hub", "if-all", "hub_add_and_remove"},
+	{"internal/peers", "SendTo", "Hub", "if-all", "hub_sendto"},
+	{"internal/peers", "BroadcastExcept", "Hub", "if-all", "hub_bcast_except"},
+	{"internal/peers", "CloseSession", "Hub", "if-all", "hub_close_session"},
 }
 
 func (w *world) genShapes() string {
@@ -1640,6 +1652,10 @@ func (w *world) shapesIn(body *ast.BlockStmt, sel string) []string {
 				if rs, ok := is.Body.List[len(is.Body.List)-1].(*ast.ReturnStmt); ok && len(rs.Results) > 0 && w.exprText(rs.Results[len(rs.Results)-1]) == "false" {
 					res = append(res, conds())
 				}
+			}
+		case sel == "if-all":
+			if _, ok := n.(*ast.IfStmt); ok {
+				res = append(res, conds())
 			}
 		case strings.HasPrefix(sel, "if-cond-has:"):
 			if is, ok := n.(*ast.IfStmt); ok && strings.Contains(w.exprText(is.Cond), sel[12:]) {
